@@ -359,9 +359,10 @@ def run_check(prop, tier, seed, t0):
                            "deterministic_instances": sum(1 for r in good for l in r.get("out", []) if l.startswith("G ") and len(l.split()) >= 11 and l.split()[9] == "1"),
                            "instances_without_outages": sum(1 for r in good for l in r.get("out", []) if l.startswith("G ") and len(l.split()) >= 11 and l.split()[10] == "1"),
                            "tables_total_and_ready": sum(1 for r in good for l in r.get("out", []) if l.startswith("G ") and len(l.split()) >= 13 and l.split()[11:13] == ["1", "1"]),
+                           "all_buffers_unordered_and_an_agv": sum(1 for r in good for l in r.get("out", []) if l.startswith("G ") and len(l.split()) >= 17 and l.split()[15:17] == ["1", "1"]),
                            "outage_records_at_rest": sum(1 for r in good for l in r.get("out", []) if l.startswith("G ") and len(l.split()) >= 15 and l.split()[13:15] == ["1", "1"]),
                            "structural_guards_hold": sum(1 for r in good for l in r.get("out", []) if l.startswith("G 1 1 1 1")),
-                           "meaning": "G <wfB> <shapeB> <conservedB> <capB> <restB> <placedB> <nonnegB> <samples>=0> <detInstB> <noOutagesB> <tablesTotalB> <readyB> <outRestB> <outPastB>: the first eight are the decidable hypotheses of the structural and schedule theorems (Start), evaluated on the real compiled instance and on the model; scenarios where a guard is 0 (e.g. a non-rest initial state written in the DSL) lie outside the theorems and are covered by the correspondence + monitors only; detInstB (no stochastic element) is the hypothesis of the seed-independence theorems of C13, noOutagesB that of C12's translation invariance, tablesTotalB/readyB those of C05's 'an offered transition applies without raising', outRestB/outPastB those of C10's outage-record invariants"},
+                           "meaning": "G <wfB> <shapeB> <conservedB> <capB> <restB> <placedB> <nonnegB> <samples>=0> <detInstB> <noOutagesB> <tablesTotalB> <readyB> <outRestB> <outPastB> <flexInstB> <hasAgvB>: the first eight are the decidable hypotheses of the structural and schedule theorems (Start), evaluated on the real compiled instance and on the model; scenarios where a guard is 0 (e.g. a non-rest initial state written in the DSL) lie outside the theorems and are covered by the correspondence + monitors only; detInstB (no stochastic element) is the hypothesis of the seed-independence theorems of C13, noOutagesB that of C12's translation invariance, tablesTotalB/readyB those of C05's 'an offered transition applies without raising', outRestB/outPastB those of C10's outage-record invariants, flexInstB/hasAgvB those of C11's progress theorem"},
         "families": fams, "transitions_by_handler": stats, "error_classes_seen": errs,
         "env_steps": sum(r.get("steps", 0) for r in good),
         "monitor_findings_known": len(old), "monitor_findings_new": len(new),
